@@ -73,7 +73,8 @@ def consumeLineNumber (r : Bytes) (cur : Int) : Bool × Int × Bytes :=
       let digits := r.takeWhile isDigit
       let rest := r.dropWhile isDigit
       let (ok, v) := stringToLineNumber digits 0
-      (ok, v, rest)
+      -- headroom so that arithmetic on line numbers read from a patch can not overflow
+      (ok && decide (v ≤ i64Max / 4), v, rest)
     else (false, cur, r)
   | [] => (false, cur, r)
 
